@@ -62,6 +62,10 @@ pub fn chain_interleaved(case: &ChainCase, noise_seed: u64) -> (Vec<String>, Vec
     }
     let mut tagbase = 500_000u32;
     for (i, op) in case.ops.iter().enumerate() {
+        // early on the third instance runs a contract that panics (caught, as a test would)
+        if i == 3 {
+            noise += panicking_calls(&mut c.app) as u64;
+        }
         // alternate which twin goes first
         if i % 2 == 0 {
             let _ = a.step(op, &mut scratch);
@@ -210,6 +214,56 @@ pub fn first_diff(a: &[String], b: &[String]) -> String {
     format!("lengths differ: {} vs {}", a.len(), b.len())
 }
 
+
+// --- a contract whose entry points panic ---------------------------------------------------------------------
+// Contracts panic (an overflow, an unwrap) and tests catch that (#[should_panic], catch_unwind). Whatever a panicking
+// call leaves behind has to stay with the instance it happened in: other instances, and instances built later in the
+// same thread or process, behave as if it had never happened.
+
+fn pn_instantiate(_d: cosmwasm_std::DepsMut<crate::puppet::PQuery>, _e: cosmwasm_std::Env, _i: cosmwasm_std::MessageInfo, _m: cosmwasm_std::Empty) -> cosmwasm_std::StdResult<cosmwasm_std::Response<crate::puppet::PMsg>> {
+    Ok(cosmwasm_std::Response::new())
+}
+fn pn_execute(deps: cosmwasm_std::DepsMut<crate::puppet::PQuery>, _e: cosmwasm_std::Env, _i: cosmwasm_std::MessageInfo, _m: cosmwasm_std::Empty) -> cosmwasm_std::StdResult<cosmwasm_std::Response<crate::puppet::PMsg>> {
+    deps.storage.set(b"before-the-panic", b"x");
+    let v: Vec<u8> = vec![];
+    let n = cosmwasm_std::Uint128::MAX + cosmwasm_std::Uint128::new(v.len() as u128 + 1);
+    Ok(cosmwasm_std::Response::new().add_attribute("n", n.to_string()))
+}
+fn pn_query(_d: cosmwasm_std::Deps<crate::puppet::PQuery>, _e: cosmwasm_std::Env, _m: cosmwasm_std::Empty) -> cosmwasm_std::StdResult<cosmwasm_std::Binary> {
+    let none: Option<cosmwasm_std::Binary> = None;
+    Ok(none.expect("the panicking contract's query"))
+}
+fn pn_sudo(deps: cosmwasm_std::DepsMut<crate::puppet::PQuery>, _e: cosmwasm_std::Env, _m: cosmwasm_std::Empty) -> cosmwasm_std::StdResult<cosmwasm_std::Response<crate::puppet::PMsg>> {
+    deps.storage.set(b"before-the-panic", b"y");
+    panic!("the panicking contract's sudo");
+}
+
+/// Stores and instantiates the panicking contract on this instance and calls its execute, query and sudo entry
+/// points, catching the panics. Returns how many calls panicked (3 expected).
+pub static PANICS_CAUGHT_ON_OTHER_INSTANCES: std::sync::atomic::AtomicU64 = std::sync::atomic::AtomicU64::new(0);
+
+pub fn panicking_calls(app: &mut crate::engines::e1_chain::PApp) -> u32 {
+    use cw_multi_test::Executor;
+    let owner = app.api().addr_make("panic-owner");
+    let code = app.store_code(Box::new(cw_multi_test::ContractWrapper::new(pn_execute, pn_instantiate, pn_query).with_sudo(pn_sudo)));
+    let addr = match app.instantiate_contract(code, owner.clone(), &cosmwasm_std::Empty {}, &[], "panicker", None) {
+        Ok(a) => a,
+        Err(_) => return 0,
+    };
+    let mut n = 0;
+    if catch(|| app.execute_contract(owner.clone(), addr.clone(), &cosmwasm_std::Empty {}, &[])).is_err() {
+        n += 1;
+    }
+    if catch(|| app.wrap().query_wasm_smart::<cosmwasm_std::Binary>(addr.clone(), &cosmwasm_std::Empty {})).is_err() {
+        n += 1;
+    }
+    if catch(|| app.wasm_sudo(addr.clone(), &cosmwasm_std::Empty {})).is_err() {
+        n += 1;
+    }
+    PANICS_CAUGHT_ON_OTHER_INSTANCES.fetch_add(n as u64, std::sync::atomic::Ordering::Relaxed);
+    n
+}
+
 /// Exercises a differently configured instance (other address prefix / block): codes, contracts
 /// (classic and salted addresses), bank, failing calls. Results are ignored.
 pub fn run_foreign_instance(seed: u64) {
@@ -230,6 +284,8 @@ pub fn run_foreign_instance(seed: u64) {
         };
         let _ = f.step(&op, &mut scratch);
     }
+    // ... and a contract that panics in execute, query and sudo (caught here, as a test would)
+    let _ = panicking_calls(&mut f.app);
     let _ = crate::puppet::take_trace();
 }
 
